@@ -267,8 +267,10 @@ def replay_generic(binary, mode, props=None):
 def c08_jobs(tier):
     q = tier != "thorough"
     return [
-        bx("lin-chk", "lin", "chk", 12, 1000000, 25 if q else 900),
-        bx("stress-chk", "stress", "chk", 4, 1000000, 20 if q else 600),
+        bx("lin-chk", "lin", "chk", 9, 1000000, 25 if q else 900),
+        bx("lin-rel", "lin", "rel", 3, 1000000, 25 if q else 900, shard_base=9),
+        bx("stress-chk", "stress", "chk", 3, 1000000, 20 if q else 600),
+        bx("stress-rel", "stress", "rel", 2, 1000000, 20 if q else 600, shard_base=3),
         bx("stress-asan", "stress", "asan", 2, 1000000, 15 if q else 300, sanitizer=True, env=ASAN_ENV, crash_is_violation=True),
         bx("stress-miri", "stress", "miri", 6 if q else 16, 2 if q else 30, 120 if q else 3000, extra=["--small", "1"], sanitizer=True,
            miriflags=MIRI_SB + " -Zmiri-preemption-rate=0.05", timeout=500 if q else 4000),
@@ -340,7 +342,8 @@ PROPS["C09"] = {
 def c11_jobs(tier):
     q = tier != "thorough"
     return [
-        bx("drop-chk", "drop", "chk", 8, 1000000, 15 if q else 600),
+        bx("drop-chk", "drop", "chk", 6, 1000000, 15 if q else 600),
+        bx("drop-rel", "drop", "rel", 2, 1000000, 15 if q else 600, shard_base=6),
         bx("drop-asan", "drop", "asan", 4, 1000000, 15 if q else 300, sanitizer=True, env=ASAN_ENV, crash_is_violation=True),
         bx("drop-miri", "drop", "miri", 6 if q else 16, 3 if q else 60, 150 if q else 3000, extra=["--small", "1"], sanitizer=True, miriflags=MIRI_SB, timeout=500 if q else 4000),
         wk("nucleo-chk", "random", "chk", 8, 1000000, 25 if q else 900, props="C11"),
